@@ -16,7 +16,7 @@ REF_OK = ("{r} is not None and alive({r}) and {r}.token is not None and alive({r
           "and {r}.span_end <= {r}.full_span_end and {r}.full_span_end <= len(plain_text) "
           "and {r}.token.start == {r}.span_start and {r}.token.end == {r}.span_end "
           # C02 for a reference citation: class invariant and SPANS (the token text is the text at the span)
-          "and cit_wf({r}) and SPANS({r}, plain_text)")
+          "and cit_wf({r}) and isinstance({r}, ReferenceCitation) and SPANS({r}, plain_text)")
 
 contract("find.extract_pincited_reference_citations",
     types={"citation": "obj<FullCaseCitation>", "plain_text": "str"}, returns="seq[obj<ReferenceCitation>]", noraise=True, prop="C19",
@@ -50,7 +50,7 @@ ROUNDTRIP = (f"implies({P2M} is not None and {M2P} is not None and document.mark
 
 shared["refs"] = {"DOC_WF": DOC_WF, "ROUNDTRIP": ROUNDTRIP}
 MREF_PARTS = {
-    "shape": "{r} is not None and alive({r}) and {r}.token is not None and alive({r}.token) "
+    "shape": "{r} is not None and alive({r}) and {r}.token is not None and alive({r}.token) and {r}.metadata is not None and alive({r}.metadata) "
              "and {r}.span_start is not None and {r}.span_end is not None and {r}.full_span_start is not None and {r}.full_span_end is not None "
              "and {r}.token.start == {r}.span_start and {r}.token.end == {r}.span_end",
     # offsets valid in the cleaned text
@@ -60,7 +60,7 @@ MREF_PARTS = {
     "ordered": "{r}.full_span_start <= {r}.span_start and {r}.span_start <= {r}.span_end and {r}.span_end <= {r}.full_span_end "
                "and {r}.token.data == document.plain_text[{r}.span_start:{r}.span_end]",
     # C02 for a reference citation: class invariant and SPANS
-    "spans": "cit_wf({r}) and SPANS({r}, document.plain_text)",
+    "spans": "cit_wf({r}) and isinstance({r}, ReferenceCitation) and SPANS({r}, document.plain_text)",
     # derived from a full case citation that starts at or before it
     "after_full": "0 <= ghost.src[{j}] and ghost.src[{j}] < len(citations) and isinstance(citations[ghost.src[{j}]], FullCaseCitation) "
                   "and {r}.span_start >= citations[ghost.src[{j}]].span()[0] and {r}.full_span_start >= citations[ghost.src[{j}]].span()[0]",
